@@ -617,6 +617,83 @@ func (g *Gen) mulSubnormal(t tailSpec) (x, y d128.Decimal, ok bool) {
 	return mk(xn, xc, e1), mk(yn, yc, e2), true
 }
 
+// ---- Mul, two reductions in a row: a wide product (one operand at least 2^64, so the 256-bit path) that lies below the
+// smallest exponent.  First the product is cut to 34 digits (n1 digits go), then j more are shifted out by gradual
+// underflow; the sticky information of the first cut must survive the second.  Cells: n1 x j x guard x (where the only
+// non-zero digit below the guard sits, counted over all n1+j dropped digits); exact ties are issued with an even and an
+// odd kept coefficient.
+var wideSubN1 = []int{0, 1, 2, 6}
+var wideSubJ = []int{1, 2, 3, 5, 9, 19, 20}
+
+func (g *Gen) mulWideSubnormalGrid(share float64) {
+	type cell struct {
+		n1 int
+		t  tailSpec
+	}
+	var cells []cell
+	for _, n1 := range wideSubN1 {
+		for _, j := range wideSubJ {
+			for _, t := range tailGrid([]int{n1 + j}) {
+				cells = append(cells, cell{n1, t})
+			}
+		}
+	}
+	g.gridRun(len(cells), share, func(i int) {
+		c := cells[i]
+		J := c.t.j // all dropped digits
+		j := J - c.n1
+		tie := c.t.guard == 5 && c.t.rest == restZeros
+		wantPar := []int{-1}
+		if tie {
+			wantPar = []int{0, 1}
+		}
+		for _, par := range wantPar {
+			for try := 0; try < 40; try++ {
+				var total, na int
+				if c.n1 > 0 {
+					total = 34 + J
+					lo := 20
+					if J-1 > lo {
+						lo = J - 1
+					}
+					na = lo + g.r.Intn(34-lo)
+				} else if g.r.Intn(2) == 0 {
+					na = 20 + g.r.Intn(10)
+					total = na + 1 + g.r.Intn(j) // the other operand is only the solved low part
+				} else {
+					kept := 21 + g.r.Intn(14)
+					total = kept + J
+					na = 20 + g.r.Intn(kept-20)
+				}
+				x, y, ok := g.mulWithTail(J, g.tailValue(c.t), total, na)
+				if !ok {
+					continue
+				}
+				_, xn, xc, _ := unmk(x)
+				_, yn, yc, _ := unmk(y)
+				if xc.BitLen() <= 64 && yc.BitLen() <= 64 {
+					continue
+				}
+				prod := new(big.Int).Mul(xc, yc)
+				nd := len(prod.String())
+				if c.n1 > 0 && nd != 34+J {
+					continue
+				}
+				if c.n1 == 0 && (nd-J > 34 || nd <= J) {
+					continue
+				}
+				if par >= 0 && int(new(big.Int).Div(prod, pow10(J)).Bit(0)) != par {
+					continue
+				}
+				e1 := eMin + g.r.Intn(3000)
+				e2 := eMin - j - e1
+				g.allModes("Mul", mk(xn, xc, e1), mk(yn, yc, e2))
+				break
+			}
+		}
+	})
+}
+
 // ---- every encoding of one (10^k * 10^-k, k = 0..34, both signs) through Pow's shortcut ladder ---------------------
 func (g *Gen) onesGrid(share float64) {
 	ys := []d128.Decimal{d128.Inf(1), d128.Inf(-1), d128.NaN(), mk(false, new(big.Int), 0), mk(false, big.NewInt(2), 0), mk(false, big.NewInt(5), -1),
